@@ -804,3 +804,211 @@ def leak_tie(ctx, ncases):
                       "leakage of %s: %s" % (bad[0], bad[1]),
                       {"scenario": d, "script": cres[bad[2]][1][:100000],
                        "how": "harness/calcore_solve.c < script (LEAK/LK/LS/LA lines); ocaml/_build/drv_calcore3 < cfg/add/leak lines"})
+
+
+# ----------------------------------------------------------------------------- convert_ue14_to_e12 (failure exit) tie
+def _cmul(a, b):
+    return (a[0] * b[0] - a[1] * b[1], a[0] * b[1] + a[1] * b[0])
+
+
+def _cdiv(a, b):
+    n = b[0] * b[0] + b[1] * b[1]
+    return ((a[0] * b[0] + a[1] * b[1]) / n, (a[1] * b[0] - a[0] * b[1]) / n)
+
+
+def _csub(a, b):
+    return (a[0] - b[0], a[1] - b[1])
+
+
+def e12conv_reference(mr, mc, e):
+    """The documented conversion of the E12_UE14 vector (per column: um[mr], ui, ux[mr], us; then the off-diagonal
+    leakage terms, row-major) to the E12 layout (per column: el[mr], er[mr], em[mr]) in exact rationals, written
+    independently of the Coq model.  None when some um is zero."""
+    ut = 2 * mr + 2
+    zero = (Fraction(0), Fraction(0))
+    lmap, k = {}, 0
+    for r in range(mr):
+        for c in range(mc):
+            if r != c:
+                lmap[(r, c)] = mc * ut + k
+                k += 1
+    if any(e[c * ut + r] == zero for c in range(mc) for r in range(mr)):
+        return None
+    out = []
+    for c in range(mc):
+        um = e[c * ut:c * ut + mr]
+        ui = e[c * ut + mr]
+        ux = e[c * ut + mr + 1:c * ut + 2 * mr + 1]
+        us = e[c * ut + 2 * mr + 1]
+        n = _csub(us, _cdiv(_cmul(ui, ux[c]), um[c]))
+        out += [_cdiv(_csub(zero, ui), um[c]) if r == c else e[lmap[(r, c)]] for r in range(mr)]
+        out += [_cdiv(n, um[r]) for r in range(mr)]
+        out += [_cdiv(ux[r], um[r]) for r in range(mr)]
+    return out
+
+
+def gen_e12conv_case(rng, mr, mc, nzero):
+    """(e, zeros, zero_text): e = E12_UE14 vector of dyadic values k/8; um terms are units times powers of two (every
+    quotient exact in binary64) or, one time in four, general non-zero dyadic values; nzero of them replaced by 0.
+    zero_text: how each planted zero is written for the C side (+0 / -0 in either part: all compare == 0.0)."""
+    ut = 2 * mr + 2
+    n = mc * ut + mr * mc - min(mr, mc)
+    e = [cdy(rng, 12, 8) for _ in range(n)]
+    general = rng.random() < 0.25
+    for c in range(mc):
+        for r in range(mr):
+            if general:
+                v = (Fraction(0), Fraction(0))
+                while v == (0, 0):
+                    v = cdy(rng, 12, 8)
+            else:
+                m = Fraction(rng.choice([1, 2, 4, 8]), rng.choice([1, 1, 2, 4])) * rng.choice([1, -1])
+                v = (m, Fraction(0)) if rng.random() < 0.7 else (Fraction(0), m)     # pure imaginary: re == 0 alone is no exit
+            e[c * ut + r] = v
+    cells = [(c, r) for c in range(mc) for r in range(mr)]
+    zeros = []
+    if nzero:
+        first = rng.choice(["diag", "offdiag", "firstcol", "lastcol", "any"])
+        pool = {"diag": [x for x in cells if x[0] == x[1]], "offdiag": [x for x in cells if x[0] != x[1]],
+                "firstcol": [x for x in cells if x[0] == 0], "lastcol": [x for x in cells if x[0] == mc - 1],
+                "any": cells}[first] or cells
+        zeros.append(rng.choice(pool))
+        while len(zeros) < min(nzero, len(cells)):
+            x = rng.choice(cells)
+            if x not in zeros:
+                zeros.append(x)
+    ztext = {}
+    for (c, r) in zeros:
+        e[c * ut + r] = (Fraction(0), Fraction(0))
+        ztext[c * ut + r] = rng.choice(["0x0p+0 0x0p+0", "0x0p+0 0x0p+0", "-0x0p+0 0x0p+0", "0x0p+0 -0x0p+0", "-0x0p+0 -0x0p+0"])
+    return e, zeros, ztext
+
+
+def e12conv_tie(ctx, ncases):
+    """convert_ue14_to_e12 of vnacal_new_solve.c (static; harness/calcore_e12conv.c includes the file) against
+    EndToEndE12Check.q_convert_checked (Eval vm_compute at the Gaussian rationals, one coq_eval for all cases) and an
+    independent exact Python account of the documented conversion.  Required: library rc=-1 / errno=EDOM  <=>  model
+    None  <=>  some um term is zero; otherwise library output == model output (1e-12 relative; counted when exact)."""
+    import re
+    name = "tie:convert_ue14_to_e12 failure exit (um == 0 -> EDOM) and success path vs EndToEndE12Check.q_convert_checked"
+    exe = ctx.build_harness("calcore_e12conv", san=True, exclude=("vnacal_new_solve.c",))
+    res = ctx.coq_make(["Cal/EndToEndE12Check.vo"])
+    if not all(res.values()):
+        raise vplib.BuildError("coq/Cal/EndToEndE12Check.vo does not build")
+    rng = random.Random(ctx.rng.getrandbits(64))
+    shapes = [(1, 1), (2, 2), (3, 3), (2, 1), (3, 1), (3, 2)]      # E12: rows >= columns
+    cases = []
+    for k in range(ncases):
+        j = k // 2                                                          # every shape draw once without, once with zeros
+        mr, mc = shapes[j % 6] if (j // 6) % 2 else shapes[(j % 6) % 3]      # square shapes more often
+        nzero = 0 if k % 2 == 0 else (2 if j % 4 == 3 else 1)
+        cases.append((mr, mc) + gen_e12conv_case(rng, mr, mc, nzero))
+    clines = []
+    for mr, mc, e, zeros, ztext in cases:
+        clines.append("conv %d %d %d %s" % (mr, mc, len(e), " ".join(ztext.get(i, hexc(x)) for i, x in enumerate(e))))
+
+    def cq(x):
+        def z(v):
+            return str(v) if v >= 0 else "(%d)" % v
+        return "mkqi %s %d %s %d" % (z(x[0].numerator), x[0].denominator, z(x[1].numerator), x[1].denominator)
+    src = ["Require Import List ZArith QArith Qcanon.",
+           "Require Import LV.Base.QcI LV.Cal.CalQI LV.Cal.EndToEndE12Check.",
+           "Import ListNotations.", "Open Scope Z_scope.",
+           "Definition enc (q : qi) : list Z := [Qnum (this (qre q)); Zpos (Qden (this (qre q))); Qnum (this (qim q)); Zpos (Qden (this (qim q)))].",
+           "Definition cases : list (nat * nat * list qi) := ["]
+    src.append(";\n".join("  (%d%%nat, %d%%nat, [%s])" % (mr, mc, "; ".join(cq(x) for x in e)) for mr, mc, e, _, _ in cases))
+    src.append("].")
+    src.append("Eval vm_compute in (map (fun c => match q_convert_checked (fst (fst c)) (snd (fst c)) (snd c) with "
+               "None => (false, []) | Some l => (true, flat_map enc l) end) cases).")
+    rc, mout, merr = ctx.coq_eval("e12conv_cases", "\n".join(src) + "\n", timeout=600)
+    if rc != 0:
+        raise vplib.BuildError("coq_eval e12conv_cases failed: " + (merr or mout)[-600:])
+    model = []
+    for mres in re.finditer(r"\(\s*(true|false)\s*,\s*\[([^\]]*)\]\s*\)", mout):
+        if mres.group(1) == "false":
+            model.append(None)
+        else:
+            z = [int(t) for t in re.findall(r"-?\d+", mres.group(2))]
+            model.append([(Fraction(z[i], z[i + 1]), Fraction(z[i + 2], z[i + 3])) for i in range(0, len(z), 4)])
+    if len(model) != len(cases):
+        raise vplib.BuildError("coq_eval e12conv_cases: %d results for %d cases" % (len(model), len(cases)))
+
+    rc, cout, cerr = vplib.sh([exe], input="\n".join(clines) + "\n", timeout=300, env=ctx.run_env())
+    cl = cout.strip().split("\n")
+    if rc != 0 or len(cl) != len(cases) + 1 or not cl[0].startswith("edom="):
+        k = max(0, min(len(cl) - 1, len(cases) - 1))
+        sig = vplib.asan_signature(cerr) or {"kind": "fault", "error": "exit %d" % rc, "function": None}
+        ctx.violation(sig, "e12conv harness stopped at case %d: %s" % (k, (cerr.strip().split("\n") or [""])[0][:200]),
+                      {"c_input_line": clines[k], "stderr": cerr[-3000:],
+                       "how": "harness/calcore_e12conv.c (includes vnacal_new_solve.c) < line"})
+        ctx.obligation(name, False, "harness stopped")
+        return
+    edom = int(cl[0].split("=")[1])
+    bad = None
+    nexit = nok = nexact = nexit_diag = nexit_off = nexit_two = 0
+    worst = 0.0
+    for k, (mr, mc, e, zeros, ztext) in enumerate(cases):
+        where = "%dx%d case %d (um zero at column/row %s)" % (mr, mc, k, zeros)
+        ctx.count()
+        line = cl[k + 1].split()
+        ref = e12conv_reference(mr, mc, e)
+        mod = model[k]
+        has_zero = len(zeros) > 0
+        if (mod is None) != has_zero or (ref is None) != has_zero:
+            bad = bad or (where, "model %s, Python reference %s, planted zeros %d"
+                          % ("None" if mod is None else "Some", "None" if ref is None else "Some", len(zeros)), k)
+            continue
+        if mod is not None and mod != ref:
+            i = [j for j in range(len(ref)) if j >= len(mod) or mod[j] != ref[j]][0] if len(mod) == len(ref) else -1
+            bad = bad or (where, "model output differs from the Python reference (term %d, lengths %d / %d)" % (i, len(mod), len(ref)), k)
+            continue
+        if line[0] == "refused":
+            bad = bad or (where, "harness refused the case (term count)", k)
+            continue
+        if mod is None:
+            if line[0] != "rc=-1" or line[1] != "errno=%d" % edom:
+                bad = bad or (where, "model None (EDOM exit), library: %s" % " ".join(line[:2])[:80], k)
+                continue
+            nexit += 1
+            nexit_two += len(zeros) > 1
+            nexit_diag += zeros[0][0] == zeros[0][1]
+            nexit_off += zeros[0][0] != zeros[0][1]
+        else:
+            if line[0] != "rc=0":
+                bad = bad or (where, "model Some (no um is zero), library: %s" % " ".join(line[:2])[:80], k)
+                continue
+            lib = parse_hex_complex_opt(line[2:])
+            if lib is None or len(lib) != len(mod):
+                bad = bad or (where, "library output not finite or of length %s, model %d terms"
+                              % ("?" if lib is None else len(lib), len(mod)), k)
+                continue
+            if lib == mod:
+                nexact += 1
+            else:
+                d = max(abs(complex(float(a[0] - b[0]), float(a[1] - b[1]))) / max(1.0, abs(complex(float(b[0]), float(b[1]))))
+                        for a, b in zip(lib, mod))
+                worst = max(worst, d)
+                if not d <= 1e-12:
+                    i = [j for j in range(len(mod)) if lib[j] != mod[j]][0]
+                    bad = bad or (where, "out[%d]: library %s, model %s (rel. diff %.3g)"
+                                  % (i, [str(x) for x in lib[i]], [str(x) for x in mod[i]], d), k)
+                    continue
+            nok += 1
+        ctx.nontrivial.add(("e12conv", k))
+        ctx.traces_validated += 1
+    ctx.extra["e12conv_tie_cases"] = len(cases)
+    ctx.extra["e12conv_tie_exit_taken (EDOM)"] = nexit
+    ctx.extra["e12conv_tie_exit first zero on diagonal / off diagonal / two zeros"] = [nexit_diag, nexit_off, nexit_two]
+    ctx.extra["e12conv_tie_success_compared / exact"] = [nok, nexact]
+    ctx.extra["e12conv_tie_worst_rel_diff"] = worst
+    ok = bad is None and nexit > 0 and nok > 0
+    ctx.obligation(name, ok, "%s: %s" % (bad[0], bad[1]) if bad is not None
+                   else ("" if ok else "no case reached the exit / the success path"))
+    if bad is not None:
+        mr, mc, e, zeros, ztext = cases[bad[2]]
+        ctx.violation({"kind": "e12conv-tie", "rows": mr, "cols": mc, "um_zeros": len(zeros)},
+                      "convert_ue14_to_e12 of %s: %s" % (bad[0], bad[1]),
+                      {"rows": mr, "cols": mc, "um_zero_at_column_row": [list(x) for x in zeros],
+                       "e12_ue14_terms": [[fs(x), fs(y)] for x, y in e], "c_input_line": clines[bad[2]],
+                       "how": "harness/calcore_e12conv.c (includes vnacal_new_solve.c) < line; "
+                              "Eval vm_compute in (q_convert_checked rows cols terms) with coq/Cal/EndToEndE12Check.v"})
